@@ -1603,7 +1603,7 @@ pub fn info_reject(doc: &str) -> Outcome {
 // C12 / C13: an attribute set through the DOM belongs to its element: it is specified, its prefix resolves in the scope of
 // the element, its declared type applies, and it cannot be attached to a second element
 
-pub const ATTR_OWNER_SCENARIOS: [&str; 4] = ["set_attribute_plain", "set_attribute_prefixed", "set_attribute_tokenized", "attribute_in_use_on_detached_element"];
+pub const ATTR_OWNER_SCENARIOS: [&str; 6] = ["set_attribute_plain", "set_attribute_prefixed", "set_attribute_tokenized", "attribute_in_use_on_detached_element", "remove_attribute_removes_one", "removed_attribute_can_be_reused"];
 
 pub fn dom_attr_owner(scenario: &str) -> Outcome {
     use xml_dom::{Attr, Document, DocumentMut, Element, ElementMut};
@@ -1631,6 +1631,23 @@ pub fn dom_attr_owner(scenario: &str) -> Outcome {
                 r.set_attribute("t", "  x   y ").unwrap();
                 expected = "specified=true value=\"x y\" namespace=\"\"".to_string();
                 describe("t")
+            }
+            "remove_attribute_removes_one" => {
+                // two attributes share a local name under different prefixes: removing by name takes exactly one of them
+                let (_, doc2) = xml_dom::XmlDocument::from_raw("<r xmlns:p='u' p:a='1' a='2' b='3'/>").unwrap();
+                let r2 = doc2.document_element().unwrap();
+                r2.remove_attribute("a").unwrap();
+                let left = { use xml_dom::{NamedNodeMap, Node}; r2.attributes().unwrap().iter().count() };
+                expected = "attributes left: 2".to_string();
+                format!("attributes left: {}", left)
+            }
+            "removed_attribute_can_be_reused" => {
+                let at = r.get_attribute_node("a").unwrap();
+                r.remove_attribute("a").unwrap();
+                let s2 = doc.create_element("s2").unwrap();
+                let again = s2.set_attribute_node(at).is_ok();
+                expected = "reused=true r has a=false s2 has a=true".to_string();
+                format!("reused={} r has a={} s2 has a={}", again, r.get_attribute_node("a").is_some(), s2.get_attribute_node("a").is_some())
             }
             _ => {
                 let e1 = doc.create_element("e1").unwrap();
